@@ -152,7 +152,7 @@ const POS_CAP: usize = 1_000_000;
 
 fn is_nontrivial(s: &Stats) -> bool {
     let fault = s.c.iter().any(|(k, v)| k.starts_with("fault.") && *v > 0);
-    let accepted = s.get("op.push-accepted") + s.get("op.push-uci-list") > 0;
+    let accepted = s.get("op.push-accepted") + s.get("op.push-uci-list") + s.get("op.push-unchecked") > 0;
     let undone = s.get("op.pop") + s.get("op.s-unmake") > 0;
     fault && accepted && undone
 }
@@ -852,6 +852,44 @@ fn cmd_triage(a: &Args) -> i32 {
     2
 }
 
+/// Generation and replay must be the same function of the trace: every generated run is
+/// re-executed from its concrete trace and must give the same digest of observations.
+fn cmd_replaycheck(a: &Args) -> i32 {
+    let prop = match a.get("prop").and_then(prop_bit) {
+        Some(p) => p,
+        None => return 2,
+    };
+    let seed = a.num("seed", DEFAULT_SEED);
+    let runs = a.num("runs", 2000);
+    let mut bad = 0;
+    for i in 0..runs {
+        let g = match generate(mix(seed, prop_tag(prop), i), prop, 100) {
+            Ok(g) => g,
+            Err(HarnessError(e)) => {
+                eprintln!("HARNESS-ERROR {}", e);
+                return 2;
+            }
+        };
+        let r = match replay(&g.start_fen, &g.trace, prop) {
+            Ok(r) => r,
+            Err(HarnessError(e)) => {
+                eprintln!("HARNESS-ERROR {}", e);
+                return 2;
+            }
+        };
+        if r.digest != g.out.digest || r.steps != g.out.steps || r.violation.is_some() != g.out.violation.is_some() {
+            eprintln!("run {}: generation digest {:016x} / replay digest {:016x}", i, g.out.digest, r.digest);
+            bad += 1;
+        }
+    }
+    println!("replaycheck {}: {} runs generated and replayed from their concrete traces, {} mismatches", a.get("prop").unwrap_or(""), runs, bad);
+    if bad == 0 {
+        0
+    } else {
+        2
+    }
+}
+
 fn cmd_selftest() -> i32 {
     let mut bad = refmodel::perft_selftest();
     // encode/decode round trip of generated operations
@@ -890,6 +928,7 @@ fn main() {
         Some("replay") => cmd_replay(&a),
         Some("selftest") => cmd_selftest(),
         Some("one") => cmd_one(&a),
+        Some("replaycheck") => cmd_replaycheck(&a),
         Some("triage") => cmd_triage(&a),
         _ => {
             eprintln!("usage: owlsim run|replay|selftest ...");
